@@ -21,9 +21,9 @@
     the norm is NaN (then every comparison is False).  On finite buffers [xs_run] is [ss_run_s]
     ([C15_finite_buffers_run]), so the theorems about [ss_run]/[ss_run_s] describe the code there.
     Theorems that mention [R], [norm2], [Q2R] use Coq.Reals (classical real-number axioms). *)
-From Coq Require Import Reals QArith Qreals Qabs ZArith NArith List Bool.
+From Coq Require Import Reals QArith Qreals Qabs ZArith NArith List Bool Permutation.
 Import ListNotations.
-From Steady Require Import SteadyLoop SteadyNan GenSteadyFacts ExpectedFacts SteadyLoopProofs SteadyHistProofs SteadyNanProofs Relax SteadyProps.
+From Steady Require Import SteadyLoop SteadyNan SteadyHist2 GenSteadyFacts ExpectedFacts SteadyLoopProofs SteadyHistProofs SteadyNanProofs Relax SteadyHist2Proofs SteadyProps SteadyProps2.
 
 Theorem C15_facts_pinned :
   gen_ss_facts = mkSSFacts 100%Z 1000%N CmpLt NormL2 PrevCopy RelDivPrev ExhaustFail C15_expected_succ true
@@ -423,3 +423,147 @@ Proof.
                      demo_steady (proj1 C15_facts_pinned)))).
 Qed.
 Print Assumptions C15_nonvacuous.
+
+(** ** EXTENDED histories of one Simulator (SteadyHist2.v): the operations above plus everything a
+    caller can do BETWEEN two runs -- [O2UpdateParameters] (update_parameter(s) / scale_parameter(s)),
+    [O2UpdateVariables] (update_variable(s): the time of the last stored row becomes the time shift
+    that is added to every later result), [O2Clear] (clear_results) -- and the NAMES the reported
+    state is attached to.  [hist2 k s ops] runs the operations ([None] = a call raises),
+    [hist2_named F names keys ops] is get_result() on [Simulator(model, y0)] with
+    [names = model.get_variable_names()] and [keys = list(y0)], every row as name -> value.
+    [gen_hist_facts] is regenerated from simulator.py: the way a continued run is appended
+    ([hf_handle]), the labels of a result frame ([hf_label]), the shape of __init__,
+    _initialise_integrator, update_*, scale_*, clear_results ([hf_ops_ok]). *)
+Theorem C15_history_facts_pinned :
+  gen_hist_facts = mkHistFacts HkSkipfirst LabModelNames true.
+Proof. vm_compute; reflexivity. Qed.
+Print Assumptions C15_history_facts_pinned.
+
+(** on the operations of the history theorems above the extended model IS the model of those theorems
+    (so they describe the extended model too), every row labelled with the model's variable names *)
+Theorem C15_extended_history_extends_history :
+  forall (names keys : list N) (ops : list sim_op),
+    hist2_named gen_hist_facts names keys (map embed ops)
+    = match hist_result gen_plumb_facts ops with
+      | Some r => name_result LabModelNames names keys r
+      | None => None
+      end.
+Proof. exact (p2_extends gen_hist_facts C15_history_facts_pinned C15_facts_pinned). Qed.
+Print Assumptions C15_extended_history_extends_history.
+
+(** a steady-state search that FAILS while no error is recorded decides get_result -- whatever
+    parameter updates, variable overrides (time shifts), cleared results and runs precede it and
+    whatever follows it short of clear_results: absence of a steady state is a failure value *)
+Theorem C15_failed_search_in_any_history :
+  forall (names keys : list N) (pre post : list op2) (r : ss_out) (e : sim_error) (s0 : sim2) (res : named_result),
+    hist2 (hf_handle gen_hist_facts) sim2_fresh pre = Some s0 -> s2_errors s0 = [] ->
+    ss_failure r = Some e -> Forall (fun op => is_clear op = false) post ->
+    hist2_named gen_hist_facts names keys (pre ++ O2Steady r :: post) = Some res ->
+    res = NError e.
+Proof. exact (p2_failed_search gen_hist_facts C15_history_facts_pinned). Qed.
+Print Assumptions C15_failed_search_in_any_history.
+
+(** every row of a successful result is the integrator's row read BY NAME: the value reported for the
+    i-th variable of the model is the i-th component of the integrator state (which
+    _initialise_integrator orders by the model's variable names), at the same time *)
+Theorem C15_result_rows_by_name :
+  forall (names keys : list N) (ops : list op2) (nrows : list named_row),
+    NoDup names ->
+    hist2_named gen_hist_facts names keys ops = Some (NSimulation nrows) ->
+    exists rows, hist2_result HkSkipfirst ops = Some (RSimulation rows)
+                 /\ Forall2 (fun nr r => fst nr = fst r /\ length (snd r) = length names
+                                         /\ forall i, (i < length names)%nat ->
+                                              lookupN (nth i names 0%N) (snd nr) = Some (nth i (snd r) 0%Q))
+                            nrows rows.
+Proof. exact (p2_rows_by_name gen_hist_facts C15_history_facts_pinned). Qed.
+Print Assumptions C15_result_rows_by_name.
+
+(** FULL statement for results that end with a search, over ANY history (parameter changes, variable
+    overrides, cleared results, earlier runs that ended at ANY time, any key order of y0): the result
+    is a success ONLY IF no error was recorded and the search succeeded, and then its LAST ROW carries
+    the time the search reported (plus the time shift in force) and maps the i-th variable NAME to the
+    i-th component of the state the search reported.  In particular the row is there even when its
+    time is not later than the rows already stored (seeded change C15-7) and the names are the
+    model's whatever the key order of y0 (seeded change C15-9). *)
+Theorem C15_search_result_is_last_row_by_name :
+  forall (names keys : list N) (pre : list op2) (r : ss_out) (s0 : sim2) (nrows : list named_row),
+    NoDup names ->
+    hist2 (hf_handle gen_hist_facts) sim2_fresh pre = Some s0 ->
+    hist2_named gen_hist_facts names keys (pre ++ [O2Steady r]) = Some (NSimulation nrows) ->
+    s2_errors s0 = []
+    /\ exists t v nrows' lrow,
+         r = SSSteady t v /\ nrows = nrows' ++ [(shift_time (s2_shift s0) t, lrow)]
+         /\ length v = length names
+         /\ forall i, (i < length names)%nat -> lookupN (nth i names 0%N) lrow = Some (nth i v 0%Q).
+Proof. exact (p2_search_by_name gen_hist_facts C15_history_facts_pinned). Qed.
+Print Assumptions C15_search_result_is_last_row_by_name.
+
+(** a y0 dictionary is a mapping: writing its keys in another order changes neither the state the
+    integrator starts from nor the reported result *)
+Theorem C15_y0_key_order_is_irrelevant :
+  forall (names : list N) (y0 y0' : list (N * Q)) (ops : list op2),
+    Permutation y0 y0' -> NoDup (map fst y0) ->
+    init_state names y0 = init_state names y0'
+    /\ hist2_named gen_hist_facts names (map fst y0) ops = hist2_named gen_hist_facts names (map fst y0') ops.
+Proof. exact (p2_key_order gen_hist_facts C15_history_facts_pinned). Qed.
+Print Assumptions C15_y0_key_order_is_irrelevant.
+
+(** regression, seeded change C15-7 = the SAME plumbing with the extracted fact [HkLaterOnly]
+    (_handle_simulation_results keeps only rows whose time is strictly later than the last stored time
+    and returns early when nothing is left).  (1) A successful search whose (shifted) convergence time
+    is not later than the last stored time leaves NO trace -- no row, no error: get_result is the
+    success it was before the search, its last row an OLDER state.  (2) On a continued run (first row
+    at the last stored time, the others later) it does what the tree does with skipfirst=True -- which
+    is why simulate / simulate_time_course do not show it.  (3) Witnesses: search (t = 1100),
+    update_parameter, search (t = 600): tree [(1100, ..); (600, [2; 20])], seeded [(1100, [50; 20])];
+    simulate to 5000, update_parameter, search (t = 500): the row of the search is missing. *)
+Theorem C15_later_rows_only_refuted :
+  let L := mkHistFacts HkLaterOnly LabModelNames true in
+  (forall (pre : list op2) (s0 : sim2) (fs : list (list row)) (tp t : Q) (v : vec) (names keys : list N),
+     hist2 HkLaterOnly sim2_fresh pre = Some s0 -> s2_errors s0 = [] ->
+     s2_frames s0 = Some fs -> last_time fs = Some tp -> (shift_time (s2_shift s0) t <= tp)%Q ->
+     hist2_named L names keys (pre ++ [O2Steady (SSSteady t v)]) = hist2_named L names keys pre)
+  /\ (forall (s : sim2) (fs : list (list row)) (tp : Q) (rows : list row) (t0 : Q) (v0 : vec) (rest : list row),
+        s2_frames s = Some fs -> last_time fs = Some tp ->
+        shift_rows (s2_shift s) rows = (t0, v0) :: rest -> (t0 == tp)%Q ->
+        rest <> [] -> Forall (fun r => (tp < fst r)%Q) rest ->
+        handle2 HkLaterOnly s (TCRows rows) true = handle2 HkSkipfirst s (TCRows rows) true)
+  /\ (hist2_result HkSkipfirst c157_ops = Some (RSimulation [(1100, [50; 20]); (600, [2; 20])])
+      /\ hist2_result HkLaterOnly c157_ops = Some (RSimulation [(1100, [50; 20])])
+      /\ hist2_result HkSkipfirst c157_sim_ops
+         = Some (RSimulation [(0, [0; 0]); (2500, [50; 20]); (5000, [50; 20]); (500, [10; 20])])
+      /\ hist2_result HkLaterOnly c157_sim_ops = Some (RSimulation [(0, [0; 0]); (2500, [50; 20]); (5000, [50; 20])])).
+Proof. exact later_only_refuted. Qed.
+Print Assumptions C15_later_rows_only_refuted.
+
+(** regression, seeded change C15-9 = the SAME plumbing with the extracted fact [LabY0Keys]
+    ([columns=list(self.y0)]).  (1) With keys written in the model's order nothing changes -- which is
+    why default initial values and a y0 in model order do not show it.  (2) Witness: model variables
+    (A, B, C) = (0, 1, 2), y0 written (C, B, A); both orders give the integrator the same start
+    [0; 40; 1/2]; the search reports [5; 10; 15/2]; the tree reports A = 5, B = 10, C = 15/2, the
+    seeded code C = 5, B = 10, A = 15/2. *)
+Theorem C15_labels_from_y0_keys_refuted :
+  let K := mkHistFacts HkSkipfirst LabY0Keys true in
+  let T := mkHistFacts HkSkipfirst LabModelNames true in
+  (forall (names : list N) (ops : list op2), hist2_named K names names ops = hist2_named T names names ops)
+  /\ (hist2_named T c159_names c159_keys c159_ops
+      = Some (NSimulation [(500, [(0%N, 5); (1%N, 10); (2%N, 15 # 2)])])
+      /\ hist2_named K c159_names c159_keys c159_ops
+         = Some (NSimulation [(500, [(2%N, 5); (1%N, 10); (0%N, 15 # 2)])])
+      /\ init_state c159_names [(2%N, 1 # 2); (1%N, 40); (0%N, 0)] = Some [0; 40; 1 # 2]
+      /\ init_state c159_names [(0%N, 0); (1%N, 40); (2%N, 1 # 2)] = Some [0; 40; 1 # 2]).
+Proof. exact y0_keys_refuted. Qed.
+Print Assumptions C15_labels_from_y0_keys_refuted.
+
+(** non-vacuity of the extended-history theorems: a history with every kind of operation (run,
+    override, parameter change, search, clear, search, override, run, search) is a success whose rows
+    carry the time shift 200 and the model's names although y0 was written (x1, x0); a failing search
+    in the middle of another one gives NoSteadyState *)
+Example C15_extended_history_nonvacuous :
+  hist2_named gen_hist_facts [0%N; 1%N] [1%N; 0%N] demo_hist2
+  = Some (NSimulation [(200, [(0%N, 7); (1%N, 8)]); (16 + 200, [(0%N, 7); (1%N, 10)]); (100 + 200, [(0%N, 11); (1%N, 12)])])
+  /\ hist2_named gen_hist_facts [0%N; 1%N] [1%N; 0%N]
+       [O2Steady (SSSteady 300 [3; 6]); O2UpdateParameters; O2Steady SSNoSteady; O2UpdateVariables; O2Steady (SSSteady 100 [1; 1])]
+     = Some (NError ENoSteadyState).
+Proof. exact (p2_nonvacuous gen_hist_facts C15_history_facts_pinned). Qed.
+Print Assumptions C15_extended_history_nonvacuous.
